@@ -41,7 +41,10 @@ Variable paper_step : option nat -> tree -> result tree.
 (* ------------------------------------------------------------------ *)
 Inductive nspec :=
 | SpSec (id : nat) (cls : sclass) (fi : bool) (mult : t) (lazy_add : bool)
-| SpStrat (id : nat) (fi : bool) (a : A) (kids : list nspec).
+| SpStrat (id : nat) (fi : bool) (a : A) (kids : list nspec)
+(* a strategy constructed without children whose sub-strategies are attached afterwards (Strategy(..., parent=s)):
+   it declared no ticker, so its universe is not filtered *)
+| SpLate (id : nat) (fi : bool) (a : A) (kids : list nspec).
 
 Record bdata := mkData { d_nrows : nat; d_prices : frame; d_kw : kwargs }.
 
@@ -67,8 +70,10 @@ Definition sec_setup (univ : frame) (kw : kwargs) (nrows : nat) (intpos : bool)
             None 0 0 (Some 0) 0 0 0 true 0 (Some 0) 0 0 0 0
             (zeros nrows) (zeros nrows) (zeros nrows) (zeros nrows) (zeros nrows) (zeros nrows) (zeros nrows) []).
 
-Definition spec_id (s : nspec) : nat := match s with SpSec id _ _ _ _ => id | SpStrat id _ _ _ => id end.
-Definition spec_is_strat (s : nspec) : bool := match s with SpStrat _ _ _ _ => true | _ => false end.
+Definition spec_id (s : nspec) : nat :=
+  match s with SpSec id _ _ _ _ => id | SpStrat id _ _ _ => id | SpLate id _ _ _ => id end.
+Definition spec_is_strat (s : nspec) : bool := match s with SpSec _ _ _ _ _ => false | _ => true end.
+Definition spec_is_late (s : nspec) : bool := match s with SpLate _ _ _ _ => true | _ => false end.
 
 Fixpoint has_dup (l : list nat) : bool :=
   match l with [] => false | x :: l' => mem_nat x l' || has_dup l' end.
@@ -88,11 +93,12 @@ Fixpoint build_node (d : bdata) (intpos : bool) (comm : t -> t -> t) (is_root pf
   | SpSec id cls fi mult _ =>
     s <- sec_setup (d_prices d) (d_kw d) (d_nrows d) intpos id cls fi mult ;;
     Ok (NSec s)
-  | SpStrat id fi a kids =>
+  | SpStrat id fi a kids | SpLate id fi a kids =>
     if fi && negb pfi && negb is_root then Err EFiChild else
     if has_dup (map spec_id kids) then Err EDupChild else
     let tickers := map spec_id (filter (fun k => negb (spec_is_strat k)) kids) in
-    let univ := match kids with
+    let univ := if spec_is_late sp then d_prices d else
+                match kids with
                 | [] => d_prices d
                 | _ => filter (fun kc => mem_nat (fst kc) tickers) (d_prices d)
                 end in
